@@ -59,7 +59,7 @@ ASSUME JsonSerialize(IOEnv.C07_TAB,
 W_AcceptFull      == ~(Terminal /\ Verdict(c.pk, st) = "accept" /\ Len(Inp) = MaxLen)
 W_MissingName     == ~(Terminal /\ st.status = "accept" /\ Why(c.pk, st) = "missing-name")
 W_LpFrag          == ~(Terminal /\ Why(c.pk, st) = "lp-fragmentation-unsupported")
-W_NestedOverrun   == ~(Terminal /\ st.status = "reject" /\ st.why = "overrun" /\ st.pos <= Len(Inp) /\ Inp[st.pos].fits)
+W_NestedOverrun   == ~(Terminal /\ st.status = "reject" /\ st.why \in {"signature_info/overrun", "meta_info/overrun"})
 W_IgnoredByFlagIn == ~(Terminal /\ Verdict(c.pk, st) = "accept" /\ c.pk = "data"
                        /\ \E p \in 1 .. Len(Inp) : Inp[p] = SigInfoUnkCrit(N(22)) /\ IsTaken(DataS, Inp, p))
 W_OooNonCritical  == ~(Terminal /\ Verdict(c.pk, st) = "accept" /\ c.pk = "lp"
